@@ -46,11 +46,13 @@ QtP == Iris({"a/"}, {"x", "y"})
 QtO == QtTerms \cup Iris({"b/"}, {"y"})
 
 \* rejection slice
-RejS == Iris({"a/", "b/"}, {"x", "y"}) \cup {Bad}
-RejP == Iris({"a/"}, {"x", "y"}) \cup {Bad}
-RejO == Iris({"a/", "b/"}, {"x"}) \cup {TypedLit("1", "d:a"), PlainLit("l"), Bad,
-          <<"qt", <<"iri", "b/", "y">>, <<"iri", "a/", "x">>, Bad>>}
-RejG == {DG, <<"iri", "a/", "x">>}
+End == <<"end">>          \* the statement tuple ends here (malformed tuple: next(terms) raises)
+RejS == Iris({"a/", "b/"}, {"x", "y"}) \cup {Bad, End}
+RejP == Iris({"a/"}, {"x", "y"}) \cup {Bad, End}
+RejO == Iris({"a/", "b/"}, {"x"}) \cup {TypedLit("1", "d:a"), PlainLit("l"), Bad, End,
+          <<"qt", <<"iri", "b/", "y">>, <<"iri", "a/", "x">>, Bad>>,
+          <<"qt", <<"iri", "b/", "y">>, TypedLit("1", "d:a"), <<"iri", "a/", "x">>>>}
+RejG == {DG, <<"iri", "a/", "x">>, <<"iri", "b/", "y">>, Bad, End, TypedLit("1", "d:a")}
 
 \* quads / graphs slice: graph names of every kind
 QdS == Iris({"a/"}, {"x", "y"}) \cup {Bn("b1")}
